@@ -4,6 +4,7 @@ import os
 import warnings
 from copy import deepcopy
 
+import numpy as np
 from astropy.coordinates import Angle, SkyCoord, frame_transform_graph
 from astropy.units import Quantity
 from astropy.utils.exceptions import AstropyUserWarning
@@ -160,6 +161,10 @@ def _make_meta_str(meta):
             metalist.append(' '.join([f'tag={_delimit_text(tag)}'
                                       for tag in tags]))
         else:
+            if isinstance(val, (bool, np.bool_)):
+                # DS9 flags are written as 0 or 1 (the reader rejects
+                # True/False)
+                val = int(val)
             metalist.append(f'{key}={val}')
     return ' '.join(metalist)
 
